@@ -8,7 +8,8 @@ from vf.core import Report, Bounded, Violation, Ob
 from .frag import run_fragcheck
 
 LEVEL = "other"
-NASTY = ["plain", "two\nlines", "int 0\nreturn", "a // b", "x; err", 'q"uote', "back\\slash", "tab\there", "cr\rint 0", "", "üñí", "l0", "main_l1:", "#pragma version 1"]
+NASTY = ["plain", "two\nlines", "int 0\nreturn", "a // b", "x; err", 'q"uote', "back\\slash", "tab\there", "cr\rint 0", "", "üñí", "l0", "main_l1:", "#pragma version 1",
+         "trail\n\n", "trail\n   ", "\n", "\n\nlead", "   ", "mid\n\nmid"]
 
 
 def strip(t):
